@@ -18,7 +18,7 @@ import types
 
 import numpy as np
 
-from ..engine import post, check_function, source_info
+from ..engine import post, check_function, source_info, HarnessError
 from ..harness import lp, socp, gcp, ro, rsome, arr, sym_array
 from ..spec import dual as D, views
 from ..sym import SymReal, p_and, p_eq, p_iff, p_le, ctx
@@ -72,6 +72,10 @@ class Rec:
 # ------------------------------------------------------------------------------ def_sol, LP branch
 
 class FakeOptLP:
+    def __getattr__(self, name):
+        # an API the recorder does not model: the harness needs extending; never a verdict about the interface
+        raise HarnessError(f"{type(self).__name__} does not model '{name}'")
+
     def __init__(self, c, status):
         self.c, self.status, self.calls = c, status, []
 
@@ -161,6 +165,10 @@ def def_sol_lp():
 # ------------------------------------------------------------------------------ def_sol, MILP branch (concrete bounds)
 
 class FakeOptMILP:
+    def __getattr__(self, name):
+        # an API the recorder does not model: the harness needs extending; never a verdict about the interface
+        raise HarnessError(f"{type(self).__name__} does not model '{name}'")
+
     def __init__(self, status):
         self.status, self.calls = status, []
 
@@ -247,6 +255,10 @@ def def_sol_milp():
 # ------------------------------------------------------------------------------ ECOS
 
 class FakeEcos:
+    def __getattr__(self, name):
+        # an API the recorder does not model: the harness needs extending; never a verdict about the interface
+        raise HarnessError(f"{type(self).__name__} does not model '{name}'")
+
     __version__ = "recorder"
 
     def __init__(self, c, flag):
@@ -388,6 +400,10 @@ class FVar:
 
 
 class FakeOrtSolver:
+    def __getattr__(self, name):
+        # an API the recorder does not model: the harness needs extending; never a verdict about the interface
+        raise HarnessError(f"{type(self).__name__} does not model '{name}'")
+
     OPTIMAL = 0
     INFEASIBLE = 2
 
@@ -591,11 +607,16 @@ class GMVar(GSub):
 
 
 class FakeGrbModel:
+    def __getattr__(self, name):
+        # an API the recorder does not model: the harness needs extending; never a verdict about the interface
+        raise HarnessError(f"{type(self).__name__} does not model '{name}'")
+
     duals = False          # True: Pi / RC / X are fresh symbols (C14 reads them back)
 
     def __init__(self, c, status):
         self.c, self.Status, self.Runtime = c, status, 0.0
         self.mvars, self.mcons, self.qcons, self.obj, self.params, self.optimized = [], [], [], None, {}, 0
+        self.mrecs, self.X = [], None
 
         class P:
             LogToConsole = 1
@@ -620,7 +641,7 @@ class FakeGrbModel:
         if self.duals:
             r.pi = arr([self.c.fresh_real(f"gpi{'e' if sense == '=' else 'i'}{i}_") for i in range(A.shape[0])])
         r.sense = sense
-        self.mrecs = getattr(self, "mrecs", []) + [r]
+        self.mrecs = self.mrecs + [r]
         return r
 
     def addConstr(self, con):
@@ -655,6 +676,11 @@ class FakeGrbModel:
 
 
 class FakeGp:
+    duals = False
+    def __getattr__(self, name):
+        # an API the recorder does not model: the harness needs extending; never a verdict about the interface
+        raise HarnessError(f"{type(self).__name__} does not model '{name}'")
+
     class GRB:
         OPTIMAL, INFEASIBLE, INF_OR_UNBD, UNBOUNDED, SUBOPTIMAL = 2, 3, 4, 5, 13
 
